@@ -39,7 +39,7 @@ _TAGSETS = [(), ("Painted",), ("Painted", "Hap1"), ("Haplotig",), ("Painted", "X
 def plan(tier):
     if tier == "thorough":
         return {"runs": 60000, "chunk": 100, "wall_budget": 3300, "resample": 50}
-    return {"runs": 3000, "chunk": 25, "wall_budget": 600, "resample": 20}
+    return {"runs": 16000, "chunk": 100, "wall_budget": 600, "resample": 20}
 
 
 # ---------------------------------------------------------------------------
